@@ -336,3 +336,26 @@ func contract_MessageInfo_unmarshal(mi *MessageInfo, in protoiface.UnmarshalInpu
 	modifiesAll()
 	return
 }
+
+// ---------------------------------------------------------------- deterministic marshaling (C05)
+
+// The Deterministic request is exactly one flag bit, and it switches lazy pass-through off for
+// fields and for extensions (a lazily kept buffer is somebody else's encoding).
+//
+// @ props C05
+func contract_marshalOptions_Deterministic(o marshalOptions) (r bool) {
+	ensures(r == (o.flags&protoiface.MarshalDeterministic != 0))
+	return
+}
+
+// @ props C05
+func contract_lazyFields(opts marshalOptions) (r bool) {
+	ensures(r == (opts.flags&protoiface.MarshalDeterministic == 0))
+	return
+}
+
+// @ props C05
+func contract_fullyLazyExtensions(opts marshalOptions) (r bool) {
+	ensures(r == (opts.flags&protoiface.MarshalDeterministic == 0))
+	return
+}
